@@ -76,13 +76,16 @@ type BlockPipeline struct {
 
 	// State
 	sequenceCounter atomic.Uint64
-	ctx             context.Context
-	cancel          context.CancelFunc
-	started         atomic.Bool
-	stopped         atomic.Bool
-	wg              sync.WaitGroup
-	mu              sync.Mutex   // protects Start/Stop
-	submitMu        sync.RWMutex // protects Submit against concurrent Stop
+	// submitSlot serialises sequence allocation with the enqueue, so that a
+	// submission which gives up never consumes a sequence number
+	submitSlot chan struct{}
+	ctx        context.Context
+	cancel     context.CancelFunc
+	started    atomic.Bool
+	stopped    atomic.Bool
+	wg         sync.WaitGroup
+	mu         sync.Mutex   // protects Start/Stop
+	submitMu   sync.RWMutex // protects Submit against concurrent Stop
 }
 
 // NewBlockPipeline creates a new BlockPipeline using functional options.
@@ -100,8 +103,9 @@ func NewBlockPipeline(opts ...PipelineOption) *BlockPipeline {
 		opt(&config)
 	}
 	return &BlockPipeline{
-		config:  config,
-		metrics: NewPipelineMetrics(config.MetricsWindowSize),
+		config:     config,
+		metrics:    NewPipelineMetrics(config.MetricsWindowSize),
+		submitSlot: make(chan struct{}, 1),
 	}
 }
 
@@ -225,18 +229,27 @@ func (p *BlockPipeline) Submit(ctx context.Context, blockType uint, rawCbor []by
 		return ErrPipelineStopped
 	}
 
-	// Allocate sequence number only once, then send.
-	// We use a single blocking select to avoid sequence gaps that would occur
-	// if we allocated in a non-blocking attempt that failed.
-	item := NewBlockItem(blockType, rawCbor, tip, p.sequenceCounter.Add(1)-1)
+	// Only one submission at a time may hold the next sequence number. The
+	// number is consumed only when its item is actually enqueued, because the
+	// apply stage waits for every sequence number in turn and a gap would
+	// stall all later blocks.
+	select {
+	case p.submitSlot <- struct{}{}:
+	case <-ctx.Done():
+		return ctx.Err()
+	case <-p.ctx.Done():
+		return ErrPipelineStopped
+	}
+	defer func() { <-p.submitSlot }()
+
+	item := NewBlockItem(blockType, rawCbor, tip, p.sequenceCounter.Load())
 
 	select {
 	case p.submitChan <- item:
+		p.sequenceCounter.Add(1)
 		p.metrics.RecordSubmit()
 		return nil
 	case <-ctx.Done():
-		// Context cancelled while waiting - sequence gap is acceptable
-		// because this typically means shutdown.
 		return ctx.Err()
 	case <-p.ctx.Done():
 		return ErrPipelineStopped
